@@ -8,6 +8,8 @@ Input-space monitor with pre/post contracts around every append:
 from __future__ import annotations
 
 import datetime as dt
+import decimal
+import fractions
 import math
 import os
 import struct
@@ -25,9 +27,12 @@ def f32(x: float) -> Optional[float]:
     if math.isnan(x) or math.isinf(x):
         return x
     try:
-        return struct.unpack("f", struct.pack("f", x))[0]
+        r = struct.unpack("f", struct.pack("f", x))[0]
     except OverflowError:
         return None  # not representable as a finite float32
+    if math.isinf(r):
+        return None  # a finite value that only fits as +-inf is not representable either
+    return r
 
 
 def values_for(t: str) -> List[Tuple[str, Any]]:
@@ -37,15 +42,17 @@ def values_for(t: str) -> List[Tuple[str, Any]]:
     if t == "int":
         return [("zero", 0), ("neg", -1), ("max", 2**31 - 1), ("min", -2**31), ("over", 2**31), ("under", -2**31 - 1),
                 ("frac", 1.5), ("negfrac", -0.5), ("integral_float", 2.0), ("nan", NAN), ("inf", float("inf")),
-                ("str", "7"), ("bool", True), ("huge", 2**63)]
+                ("str", "7"), ("bool", True), ("huge", 2**63), ("decimal_frac", decimal.Decimal("1.5")),
+                ("fraction", fractions.Fraction(3, 2))]
     if t == "long":
         return [("zero", 0), ("big", 2**53 + 1), ("max", 2**63 - 1), ("min", -2**63), ("over", 2**63),
                 ("under", -2**63 - 1), ("frac", 1.5), ("bigfloat", 1e19), ("integral_float", 2.0), ("nan", NAN),
-                ("str", "7")]
+                ("str", "7"), ("decimal_frac", decimal.Decimal("1.5")), ("fraction", fractions.Fraction(3, 2)),
+                ("decimal_integral", decimal.Decimal("7"))]
     if t == "float":
         return [("half", 0.5), ("tenth", 0.1), ("int_exact", 16777216), ("int_inexact", 16777217),
                 ("float_inexact", 16777217.0), ("overflow", 1e39), ("nan", NAN), ("inf", float("inf")),
-                ("negzero", -0.0), ("str", "1.0"), ("bool", True)]
+                ("negzero", -0.0), ("str", "1.0"), ("bool", True), ("overflow_big", 1e300), ("just_over", 3.5e38)]
     if t == "double":
         return [("tenth", 0.1), ("int_exact", 2**53), ("int_inexact", 2**53 + 1), ("large", 1e308), ("nan", NAN),
                 ("inf", float("inf")), ("neginf", float("-inf")), ("str", "x"), ("negzero", -0.0)]
@@ -200,7 +207,8 @@ class C11(Check):
                 for handle in ("fresh", "reused"):
                     for api in ("append_records", "tx_append_data", "tx_after_valid"):
                         yield {"part": "schema", "variant": v, "sid": sid, "handle": handle, "api": api}
-        for v in ("equal", "reordered", "other_type", "nullability", "extra", "missing", "not_parquet"):
+        for v in ("equal", "reordered", "other_type", "nullability", "extra", "missing", "not_parquet",
+                  "reordered_declared_avro", "garbage_declared_orc"):
             yield {"part": "files", "variant": v}
 
     # ------------------------------------------------------------------
@@ -486,7 +494,7 @@ class C11(Check):
                     "b": pa.array([60], pa.int64()), "s": pa.array(["p"], pa.string())}
             pf = [pa.field("rid", pa.int64(), nullable=False), pa.field("a", pa.int64()), pa.field("b", pa.int64()),
                   pa.field("s", pa.string())]
-            if v == "reordered":
+            if v in ("reordered", "reordered_declared_avro"):
                 pf = [pf[0], pf[2], pf[1], pf[3]]
             elif v == "other_type":
                 pf[1] = pa.field("a", pa.int32())
@@ -499,12 +507,13 @@ class C11(Check):
             elif v == "missing":
                 pf = pf[:3]
             path = os.path.join(root, "data", "prebuilt.parquet")
-            if v == "not_parquet":
+            if v in ("not_parquet", "garbage_declared_orc"):
                 open(path, "wb").write(b"this is not parquet")
             else:
                 tbl = pa.Table.from_arrays([cols[f.name] for f in pf], schema=pa.schema(pf))
                 pq.write_table(tbl, path)
-            df = DataFile(file_path="/data/prebuilt.parquet", file_format=FileFormat.PARQUET, partition_values={},
+            fmt = FileFormat.AVRO if v.endswith("declared_avro") else FileFormat.ORC if v.endswith("declared_orc") else FileFormat.PARQUET
+            df = DataFile(file_path="/data/prebuilt.parquet", file_format=fmt, partition_values={},
                           record_count=1, file_size_in_bytes=os.path.getsize(path))
             before = self._state(root)
             wit = {"prebuilt": v}
